@@ -278,9 +278,11 @@ Inv_Conservation ==          \* D-level: buffer and output together hold every v
 Inv_C07_ExactlyOnce   == Done => ExactlyOnce(F, out)
 Inv_C07_SamePartition == Done => GroupsOf(out) = GroupsOf(NoEject(stream, pooling))
 Inv_C07_NoPremature   == Done => NoPremature(F, SelectSeq(out, LAMBDA m : ~m.ov), Cap)   \* overflow-rejected singletons are handed out at once by design
-(* both pooling methods give the same molecules when UMIs are compared exactly (radius 0, non-plain) *)
+(* both pooling methods give the same molecules when UMIs are compared exactly (radius 0); plain fragments:  *)
+(* unless a fragment matches an interior member only (MolAssignProps.InteriorMatch, finding D61)             *)
 Inv_C07_PoolingAgnostic ==
-    (Done /\ HD = 0 /\ Radius = 0 /\ Kind # "plain" /\ Cap = 0) => GroupsOf(out) = GroupsOf(NoEject(stream, 1 - pooling))
+    (Done /\ HD = 0 /\ Radius = 0 /\ Cap = 0 /\ (Kind = "plain" => ~InteriorMatch(F, { i \in DOMAIN F : F[i].valid })))
+        => GroupsOf(out) = GroupsOf(NoEject(stream, 1 - pooling))
 
 InRegion == \A i \in DOMAIN F : 2 * (Span(F[i]) + (IF Kind = "nla" THEN 0 ELSE Radius)) <= CacheSize
 
